@@ -98,6 +98,18 @@ NEEDS = {
     "C13f": "thread A dispatching the reply to thread B's request is preempted after `_is_ready = True` and before `_obj` is stored: B's request completes with None",
     "C19f": "two numerically equal values of different type (7 and 7.0, 0.0 and -0.0) dumped in one process: module-level memo of encoded leaves keyed by the value (equality) - whichever came first decides the bytes",
     "C20f": "download onto an EXISTING local file that is longer than the remote one: os.open without O_TRUNC, the stale tail stays",
+    "C02g": "an operation on the target whose RESULT is an instance of a tuple subclass (namedtuple, user class): `issubclass(type(obj), tuple)` in _box sends it by value as a plain tuple (same mechanism as C01c, met through results)",
+    "C03g": "classic.obtain() of a value that arrived as a local tuple with references inside (e.g. conn.eval('([1,2], 7, {..})')): returned unchanged because the tuple itself is not a proxy - the 'copy' still is the owner's objects",
+    "C06g": "allow_all_attrs on and allow_exposed_attrs off with the operation's own switch off (setattr/delattr/getattr disabled): a 'classic-mode fast path' returns the name before the operation switch is checked",
+    "C10g": "close() whose goodbye step raises something other than EOFError with close_catchall off (a before_closed hook that fails): `_closed` set before the try and cleanup no longer in a finally - the connection reports closed and never cleans up",
+    "C12g": "two threads, one message each: thread B appends between the lock holder's snapshot `pending = list(queue)` and its `del queue[:]`: B's message is deleted without ever being written",
+    "C14g": "background receiver B notifies under the condition BEFORE releasing the receive lock (the two hand-off statements swapped); caller W fails the try-lock between them and parks after the only notification",
+    "C15g": "a finite expiry, a reply accepted before it, and a wait()/value query after the expiry instant: wait() loops on the timeout only and raises although the result is ready",
+    "C16g": "ThreadedServer with an authenticator: a client that sends part of its credentials and stays silent - authentication moved from the per-client thread into the accept loop, later clients are never accepted",
+    "C17g": "Server.close() with an idle connected client that never touches its end again: shutdown(SHUT_WR) without close() - the serving thread sleeps on, hooks never run, the descriptor stays",
+    "C18g": "a (host, port) registered under two or more names, then UNREGISTER: any() stops at the first name that held it, the other names keep listing it",
+    "C19g": "a str containing an unpaired surrogate anywhere in a message: error handler changed from surrogatepass to surrogateescape - U+DC80..DCFF go out as raw bytes, other lone surrogates make dump raise, conforming bytes decode to other text",
+    "C20g": "the same remote directory downloaded a second time in one process: a 'visited' set used as a mutable default argument makes the second download return at once",
     "C18b": "register, advance the clock, re-register, advance: setdefault never refreshes the time stamp, live server pruned / wrong order",
 }
 
